@@ -15,6 +15,6 @@ files=sorted(os.path.relpath(os.path.join(d,f),'coq') for d,_,fs in os.walk('coq
 open('.cache/coqfiles.txt','w').write("\n".join(files))
 PY
 grep -E "^(File|Error)" .cache/coq_setup.log | head -20
-( cd harness && for b in src/bin/*.rs; do n=$(basename "$b" .rs); RUSTFLAGS="--cfg dust_dds_verif" cargo build --offline --quiet --bin "$n" 2>/dev/null || echo "harness bin $n does not build (its check will report it)"; done )
+( cd harness && for b in src/bin/*.rs; do n=$(basename "$b" .rs); RUSTFLAGS="--cfg dust_dds_verif" cargo build --offline --quiet --target-dir "$PWD/../.cache/target" --bin "$n" 2>/dev/null || echo "harness bin $n does not build (its check will report it)"; done )
 echo setup ok
 exit 0
